@@ -562,12 +562,14 @@ func (h *c20) caseConc(rk, wk, sched, coolMode string, variant int) {
 		}
 		cs.concOp(sched, cs.reader(rk, c.scid, T1+50, dir), w)
 
-		// replays through the real freshness checks
+		// replays through the real freshness checks (at most one update per
+		// direction is sent while the channel may be unknown: lnd replays cached
+		// premature updates of one direction in goroutine order)
 		cs.submit(2, mk(T1+50, dir, 4)) // between the two stored timestamps
+		cs.submit(3, h.mkCA(c))         // duplicate / re-announcement
 		cs.entry("au", mk(T1+60, dir, 5))
 		cs.entry("ue", mk(T1+70, dir, 6))
 		cs.submit(2, mk(T2, dir, 7))   // equal to the newer one
-		cs.submit(3, h.mkCA(c))        // duplicate / re-announcement
 		cs.submit(3, mk(T2+1, dir, 8)) // fresh
 		cs.submit(3, mk(T1+8, 1-dir, 9))
 		cs.submit(4, mk(T2+1, dir, 10)) // equal again
@@ -616,8 +618,14 @@ func (h *c20) caseZombiePrune(variant int) {
 		cs.zombiePrune()
 		now = cs.nowSec()
 		// resurrection attempts: each direction, signed by each party
+		// (who tries first alternates: the rightful owner of a direction may be
+		// refused, the other party may succeed)
 		for i, d := range []uint8{1 - lag, lag} {
-			for j, s := range []int{own(c, 1-d), own(c, d)} {
+			signers := []int{own(c, 1-d), own(c, d)}
+			if (variant/12+i)%2 == 1 {
+				signers[0], signers[1] = signers[1], signers[0]
+			}
+			for j, s := range signers {
 				cs.submit(2+i, mk(c, now-uint32(10*i+j), d, uint32(10+2*i+j), s))
 			}
 		}
